@@ -114,6 +114,7 @@ func (v *Value) unmarshal(tagType byte, r nbt.DecoderReader, depth int) error {
 		}
 
 	case nbt.TagCompound:
+		v.comp.kvs = v.comp.kvs[:0] // a Value that is decoded into again holds the new compound, not the union
 		for {
 			t, name, err := readTag(r)
 			if err != nil {
